@@ -6,6 +6,7 @@ import MosnVerif.Model.TransferLookup
 import MosnVerif.Drive.C11Upgrade
 import MosnVerif.Drive.C11Drain
 import MosnVerif.Drive.C11Tls
+import MosnVerif.Drive.C11Stream
 /-! `mosnmodel` driver for C11: evaluates the models on one case line and the property predicate (`Spec…`, written
 against literal reference values, never against regenerated code) on the implementation's output. -/
 namespace MosnVerif.Drive.C11
@@ -610,6 +611,7 @@ def run (caseToks impl : List String) : String :=
   | "gs2" :: c => gs2 c impl
   | "st" :: c => C11U.st c impl
   | "hw" :: c => C11U.hw c impl
+  | "hwl" :: c => C11S.hwl c impl
   | "rh" :: c => C11U.rh c impl
   | "tg" :: c => C11T.tg c impl
   | "tx" :: c => C11T.tx c impl
